@@ -22,7 +22,7 @@ EXPLANATION = (
     'own parameters, and range tests reject exactly outside the inclusive '
     'bounds.  The set equality iterator = formula = validator = sampler is '
     'arithmetic over runtime sizes and is not decided.')
-FLOORS = {'C11.a': 3, 'C11.b': 12, 'C11.c': 2, 'C11.d': 4, 'C11.e': 2, 'C11.z': 2}
+FLOORS = {'C11.a': 3, 'C11.b': 12, 'C11.c': 2, 'C11.d': 4, 'C11.e': 2, 'C11.g': 30, 'C11.z': 2}
 FILES = ['pyglove/core/geno/base.py', 'pyglove/core/geno/categorical.py',
          'pyglove/core/geno/space.py', 'pyglove/core/geno/numerical.py',
          'pyglove/core/geno/custom.py', 'pyglove/core/geno/sweeping.py',
@@ -485,6 +485,13 @@ def rule_e(ctx):
          f.loc, '; '.join(problems))
 
 
+def rule_g(ctx):
+  """Validation and binding "reject everything else": the acceptance routines of
+  geno keep their refusals (sa/rejections.py, surface.rejection_census_obligations)."""
+  from sa.rejections import REJECTIONS
+  S.rejection_census_obligations(ctx, 'C11.g', REJECTIONS['C11'], floor=30)
+
+
 def run(ctx):
   ctx.consult(*FILES)
   rule_a(ctx)
@@ -492,6 +499,7 @@ def run(ctx):
   rule_c(ctx)
   rule_d(ctx)
   rule_e(ctx)
+  rule_g(ctx)
   S.optional_truthiness_obligations(ctx, 'C11.z', ['pyglove/core/geno/base.py', 'pyglove/core/geno/categorical.py', 'pyglove/core/geno/numerical.py', 'pyglove/core/geno/space.py', 'pyglove/core/geno/sweeping.py', 'pyglove/core/geno/random.py'], 'index 0, bound 0.0 and seed 0 are values')
   ctx.assume('exactness of the odometer (next_dna) against the counting formula is arithmetic over '
              'runtime sizes: not decided statically')
